@@ -1,3 +1,286 @@
-(* C12 -- stub while the correspondence is being calibrated *)
-From Coq Require Import Reals.
-From V Require Import Model.Num Model.NumR Model.DailyCurve Model.Refine Proofs.RefineProofs.
+(* C12 — every fitted daily/billing model is physically admissible and well formed.   (PARTIAL, see below)
+
+   Statements only.  Model: Model/Refine.v on top of Model/DailyCurve.v, here at the real-number instance [RNum];
+   lemmas: Proofs/RefineProofs.v.  The same text at binary64 ([FNum]) is what harness/c12.py runs against the
+   real OptimizedResult objects.
+
+   What is and is not covered
+     * modelled: everything between the optimiser's return value and the stored document:
+       get_full_model_x / fix_full_model_x, get_k, reduce_model (incl. its recursive collapse), _set_model_key,
+       ModelCoefficients.from_np_arrays, the construction of the optimiser's box (the three update_bnds functions), the curve the
+       objective scored and the curve of the stored coefficients (OptimizedResult.eval / _predict_submodel);
+     * NOT modelled (PARTIAL): the optimiser.  Theorems quantify over EVERY vector of the box ([box_spec]); that NLopt
+       returns such a vector is a contract checked on the sampled fits only (hook: _verif_x_raw in _verif_bnds).
+       Finiteness of the coefficients and the uncertainty f_unc are checked by the oracle on samples only;
+     * fix_identical_bnds is an uninterpreted function with the contract "non-degenerate rows are left alone". *)
+From Coq Require Import Reals Lra List Bool PrimFloat.
+From V Require Import Model.Num Model.NumR Model.NumF Model.DailyCurve Model.DailyCurveRun Model.Refine
+                      Proofs.DailyCurveProofs Proofs.RefineProofs.
+Import ListNotations.
+Local Open Scope R_scope.
+
+Notation lo := R_ln_min.
+Notation hi := R_ln_max.
+Definition Hlo : lo <= 0 := proj1 R_ln_bounds.
+Definition Hhi : 0 <= hi := proj2 R_ln_bounds.
+Notation tcR := (Build_tconstr RNum).
+
+Print box_spec.
+Print wellformed.
+
+(* ------------------------------------------------------------------ the full statement *)
+
+(* "the coefficients kept describe the same curve the optimiser scored", on the fitted temperature range *)
+Definition readback_ok (key : model_key) (raw : list R) (Tmin Tmax Tminseg Tmaxseg : R) : Prop :=
+  forall T, Tmin <= T <= Tmax ->
+    stored_curve RNum key raw (tcR Tmin Tmax Tminseg Tmaxseg) T = scored_curve RNum key raw (tcR Tmin Tmax Tminseg Tmaxseg) T.
+
+Definition C12_statement : Prop :=
+  forall Tmin Tmax Tminseg Tmaxseg qlo qhi key raw,
+    bounds_ok lo hi (tcR Tmin Tmax Tminseg Tmaxseg) ->
+    box_spec Tmin Tmax qlo qhi key raw ->
+    (exists c, named_coeffs RNum key raw (tcR Tmin Tmax Tminseg Tmaxseg) = Some c /\
+               wellformed lo hi Tmin Tmax Tminseg Tmaxseg qlo qhi c) /\
+    readback_ok key raw Tmin Tmax Tminseg Tmaxseg.
+
+(* ------------------------------------------------------------------ admissibility: proved for every vector of the box *)
+
+(* heating balance point not above the cooling one, both inside the observed temperature range, slope signs,
+   every declared slope non-zero, non-negative smoothing, base load within the usage quantiles, model type agreeing
+   with the coefficients present *)
+Theorem C12_refine_admissible : forall Tmin Tmax Tminseg Tmaxseg qlo qhi,
+  bounds_ok lo hi (tcR Tmin Tmax Tminseg Tmaxseg) ->
+  forall key raw, box_spec Tmin Tmax qlo qhi key raw ->
+  exists c, named_coeffs RNum key raw (tcR Tmin Tmax Tminseg Tmaxseg) = Some c /\
+            wellformed lo hi Tmin Tmax Tminseg Tmaxseg qlo qhi c.
+Proof. exact (refine_admissible lo hi). Qed.
+Print Assumptions C12_refine_admissible.
+
+(* the box the fit functions construct implies box_spec.  [fixid] is fix_identical_bnds (contract in the hypothesis);
+   [Tlo,Thi] is [T_min_seg,T_max_seg] (final fit) or [T_min,T_max] (initial fit); slopes / smoothing rows are
+   arbitrary (they come from get_bnds(x0)) and only their lower end is clipped at 0 *)
+Theorem C12_box_sound_full_smooth : forall Tmin Tmax qlo qhi (fixid : R * R -> R * R),
+  (forall r : R * R, fst r < snd r -> fixid r = r) ->
+  forall Tlo Thi, Tmin <= Tlo /\ Tlo <= Thi /\ Thi <= Tmax -> qlo < qhi ->
+  forall nb r1 r2 r4 r5 B raw, Tlo < Thi ->
+  update_bnds_full_smooth RNum fixid nb [(Tlo, Thi); r1; r2; (Tlo, Thi); r4; r5; (qlo, qhi)] = Some B ->
+  in_box RNum B raw = true -> box_spec Tmin Tmax qlo qhi KFullSmooth raw.
+Proof. exact (box_sound_full_smooth lo hi). Qed.
+Print Assumptions C12_box_sound_full_smooth.
+
+Theorem C12_box_sound_full : forall Tmin Tmax qlo qhi (fixid : R * R -> R * R),
+  (forall r : R * R, fst r < snd r -> fixid r = r) ->
+  forall Tlo Thi, Tmin <= Tlo /\ Tlo <= Thi /\ Thi <= Tmax -> qlo < qhi ->
+  forall nb r1 r3 B raw, Tlo < Thi ->
+  update_bnds_full RNum fixid nb [(Tlo, Thi); r1; (Tlo, Thi); r3; (qlo, qhi)] = Some B ->
+  in_box RNum B raw = true -> box_spec Tmin Tmax qlo qhi KFull raw.
+Proof. exact (box_sound_full lo hi). Qed.
+Print Assumptions C12_box_sound_full.
+
+(* one-sided layouts, including the pinned balance point (Tlo = Thi) *)
+Theorem C12_box_sound_c_smooth : forall Tmin Tmax qlo qhi (fixid : R * R -> R * R),
+  (forall r : R * R, fst r < snd r -> fixid r = r) ->
+  forall Tlo Thi, Tmin <= Tlo /\ Tlo <= Thi /\ Thi <= Tmax -> qlo < qhi ->
+  forall nb r1 r2 B raw,
+  update_bnds_c_smooth RNum fixid nb [(Tlo, Thi); r1; r2; (qlo, qhi)] = Some B ->
+  in_box RNum B raw = true -> box_spec Tmin Tmax qlo qhi KCSmooth raw.
+Proof. exact (box_sound_c_smooth lo hi). Qed.
+Print Assumptions C12_box_sound_c_smooth.
+
+Theorem C12_box_sound_c : forall Tmin Tmax qlo qhi (fixid : R * R -> R * R),
+  (forall r : R * R, fst r < snd r -> fixid r = r) ->
+  forall Tlo Thi, Tmin <= Tlo /\ Tlo <= Thi /\ Thi <= Tmax -> qlo < qhi ->
+  forall nb r1 B raw,
+  update_bnds_c RNum fixid nb [(Tlo, Thi); r1; (qlo, qhi)] = Some B ->
+  in_box RNum B raw = true -> box_spec Tmin Tmax qlo qhi KC raw.
+Proof. exact (box_sound_c lo hi). Qed.
+Print Assumptions C12_box_sound_c.
+
+Theorem C12_box_sound_tidd : forall Tmin Tmax qlo qhi (fixid : R * R -> R * R),
+  (forall r : R * R, fst r < snd r -> fixid r = r) -> qlo < qhi ->
+  forall B raw,
+  update_bnds_tidd RNum fixid [(qlo, qhi)] = Some B ->
+  in_box RNum B raw = true -> box_spec Tmin Tmax qlo qhi KTidd raw.
+Proof. exact (box_sound_tidd lo hi). Qed.
+Print Assumptions C12_box_sound_tidd.
+
+(* ------------------------------------------------------------------ read-back: where stored = scored is proved *)
+
+(* When the optimiser's balance points are ordered and STRICTLY inside [T_min_seg, T_max_seg], and a zero slope comes
+   with a zero smoothing fraction, the kept coefficients describe exactly the curve that was scored, at every
+   temperature (all five coefficient layouts, every reduce_model branch).  Each excluded face of the box has a
+   refuted witness below: crossed balance points (H), pinned balance point, balance point on the end of the range
+   or of the segment range, zero slope with a smoothing fraction. *)
+Theorem C12_readback_eq_scored_full_smooth : forall Tmin Tmax Tminseg Tmaxseg,
+  Tmin <= Tminseg /\ Tminseg <= Tmaxseg /\ Tmaxseg <= Tmax ->
+  forall hb hbeta ph cb cbeta pc i T : R,
+  Tminseg < hb -> hb <= cb -> cb < Tmaxseg -> 0 <= hbeta -> 0 <= cbeta -> 0 <= ph -> 0 <= pc ->
+  (hbeta = 0 -> ph = 0) -> (cbeta = 0 -> pc = 0) ->
+  stored_curve RNum KFullSmooth [hb; hbeta; ph; cb; cbeta; pc; i] (tcR Tmin Tmax Tminseg Tmaxseg) T =
+  scored_curve RNum KFullSmooth [hb; hbeta; ph; cb; cbeta; pc; i] (tcR Tmin Tmax Tminseg Tmaxseg) T.
+Proof. exact (readback_full_smooth lo hi Hlo Hhi). Qed.
+Print Assumptions C12_readback_eq_scored_full_smooth.
+
+Theorem C12_readback_eq_scored_full : forall Tmin Tmax Tminseg Tmaxseg,
+  Tmin <= Tminseg /\ Tminseg <= Tmaxseg /\ Tmaxseg <= Tmax ->
+  forall hb hbeta cb cbeta i T : R,
+  Tminseg < hb -> hb <= cb -> cb < Tmaxseg -> 0 <= hbeta -> 0 <= cbeta ->
+  stored_curve RNum KFull [hb; hbeta; cb; cbeta; i] (tcR Tmin Tmax Tminseg Tmaxseg) T =
+  scored_curve RNum KFull [hb; hbeta; cb; cbeta; i] (tcR Tmin Tmax Tminseg Tmaxseg) T.
+Proof. exact (readback_full lo hi Hlo Hhi). Qed.
+Print Assumptions C12_readback_eq_scored_full.
+
+Theorem C12_readback_eq_scored_c_smooth : forall Tmin Tmax Tminseg Tmaxseg,
+  Tmin <= Tminseg /\ Tminseg <= Tmaxseg /\ Tmaxseg <= Tmax ->
+  forall bp beta k i T : R, Tminseg < bp -> bp < Tmaxseg -> 0 <= k -> (beta = 0 -> k = 0) ->
+  stored_curve RNum KCSmooth [bp; beta; k; i] (tcR Tmin Tmax Tminseg Tmaxseg) T =
+  scored_curve RNum KCSmooth [bp; beta; k; i] (tcR Tmin Tmax Tminseg Tmaxseg) T.
+Proof. exact (readback_c_smooth lo hi). Qed.
+Print Assumptions C12_readback_eq_scored_c_smooth.
+
+Theorem C12_readback_eq_scored_c : forall Tmin Tmax Tminseg Tmaxseg,
+  Tmin <= Tminseg /\ Tminseg <= Tmaxseg /\ Tmaxseg <= Tmax ->
+  forall bp beta i T : R, Tminseg < bp -> bp < Tmaxseg ->
+  stored_curve RNum KC [bp; beta; i] (tcR Tmin Tmax Tminseg Tmaxseg) T =
+  scored_curve RNum KC [bp; beta; i] (tcR Tmin Tmax Tminseg Tmaxseg) T.
+Proof. exact (readback_c lo hi). Qed.
+Print Assumptions C12_readback_eq_scored_c.
+
+Theorem C12_readback_eq_scored_tidd : forall Tmin Tmax Tminseg Tmaxseg i T : R,
+  stored_curve RNum KTidd [i] (tcR Tmin Tmax Tminseg Tmaxseg) T =
+  scored_curve RNum KTidd [i] (tcR Tmin Tmax Tminseg Tmaxseg) T.
+Proof. exact (readback_tidd lo hi). Qed.
+Print Assumptions C12_readback_eq_scored_tidd.
+
+Example ex_readback : forall T : R,
+  stored_curve RNum KFullSmooth [40; 1; 1/2; 65; 2; 1/4; 20] (tcR 10 90 14 85) T =
+  scored_curve RNum KFullSmooth [40; 1; 1/2; 65; 2; 1/4; 20] (tcR 10 90 14 85) T.
+Proof.
+  intros T. apply C12_readback_eq_scored_full_smooth; try lra; intros; lra.
+Qed.
+
+(* ------------------------------------------------------------------ refinement has nothing left to do on what it stores *)
+
+Print stable.
+
+(* rebuilding an OptimizedResult from a stored stable document (to_np_array, model_key) gives the same document back *)
+Theorem C12_refine_idempotent : forall Tmin Tmax Tminseg Tmaxseg (c : coeffs RNum),
+  stable lo hi Tmin Tmax Tminseg Tmaxseg c ->
+  exists arr, to_np_array RNum c = Some arr /\
+              named_coeffs RNum (key_of_shape (model_type c)) arr (tcR Tmin Tmax Tminseg Tmaxseg) = Some c.
+Proof. exact (refine_idempotent lo hi). Qed.
+Print Assumptions C12_refine_idempotent.
+
+Example ex_stable : stable lo hi 10 90 14 85
+  (Build_coeffs RNum HddTiddCddSmooth 20 (Some 40) (Some 1) (Some (1/2)) (Some 65) (Some 2) (Some (1/4))).
+Proof. unfold stable; cbn. repeat split; try lra; try (right; lra); try (left; lra). Qed.
+
+(* ------------------------------------------------------------------ the pinned one-sided balance point *)
+
+(* fit_c_hdd_tidd gives the optimiser degenerate bounds [T_max, T_max] for the balance point of a building that heats
+   over its whole temperature range; the optimiser therefore scores the line through (T_max, intercept);
+   reduce_model then stores T_max_seg with the SAME intercept.  On every fitted day at or below T_max_seg the stored
+   curve is the scored one shifted down by |beta| (T_max - T_max_seg) > 0 : the kept coefficients do not reproduce the
+   fitted values (finding C12-F2).  [bounds_ok] is T_min <= T_min_seg <= T_max_seg <= T_max. *)
+Theorem C12_pinned_scored : forall Tmin Tmax Tminseg Tmaxseg beta i T : R, beta < 0 ->
+  scored_curve RNum KC [Tmax; beta; i] (tcR Tmin Tmax Tminseg Tmaxseg) T = Some (i + - beta * (Tmax - T)).
+Proof. exact (pinned_scored lo hi). Qed.
+Print Assumptions C12_pinned_scored.
+
+Theorem C12_pinned_stored : forall Tmin Tmax Tminseg Tmaxseg,
+  bounds_ok lo hi (tcR Tmin Tmax Tminseg Tmaxseg) ->
+  forall beta i T : R, beta < 0 -> Tmin <= Tminseg -> Tminseg <= Tmaxseg -> Tmaxseg < Tmax ->
+  stored_curve RNum KC [Tmax; beta; i] (tcR Tmin Tmax Tminseg Tmaxseg) T = Some (i + - beta * pos (Tmaxseg - T)).
+Proof. exact (pinned_stored lo hi Hlo Hhi). Qed.
+Print Assumptions C12_pinned_stored.
+
+Theorem C12_pinned_readback : forall Tmin Tmax Tminseg Tmaxseg,
+  bounds_ok lo hi (tcR Tmin Tmax Tminseg Tmaxseg) ->
+  forall beta i T : R, beta < 0 -> Tmin <= Tminseg -> Tminseg <= Tmaxseg -> Tmaxseg < Tmax -> T <= Tmaxseg ->
+  exists sc st : R,
+    scored_curve RNum KC [Tmax; beta; i] (tcR Tmin Tmax Tminseg Tmaxseg) T = Some sc /\
+    stored_curve RNum KC [Tmax; beta; i] (tcR Tmin Tmax Tminseg Tmaxseg) T = Some st /\
+    sc - st = - beta * (Tmax - Tmaxseg) /\ 0 < sc - st.
+Proof. exact (pinned_readback lo hi Hlo Hhi). Qed.
+Print Assumptions C12_pinned_readback.
+
+(* hence the full statement does not hold of the unchanged code: heating-only, T_min 10, T_min_seg 14, T_max_seg 85,
+   T_max 90, slope -1, base load 20, evaluated at 50 F: scored 60, stored 55 *)
+Theorem C12_statement_refuted : ~ C12_statement.
+Proof.
+  intros S.
+  assert (B : bounds_ok lo hi (tcR 10 90 14 85)) by (unfold bounds_ok; cbn; lra).
+  assert (X : box_spec 10 90 0 100 KC [90; -1; 20]) by (cbn; lra).
+  destruct (S 10 90 14 85 0 100 KC [90; -1; 20] B X) as [_ RB].
+  assert (HT : 10 <= 50 <= 90) by lra. specialize (RB 50 HT).
+  assert (Hm : -1 < 0) by lra.
+  pose proof (C12_pinned_scored 10 90 14 85 (-1) 20 50 Hm) as PSc.
+  assert (PSt : stored_curve RNum KC [90; -1; 20] (tcR 10 90 14 85) 50 = Some (20 + - -1 * pos (85 - 50)))
+    by (apply (C12_pinned_stored 10 90 14 85 B (-1) 20 50); lra).
+  pose proof (eq_trans (eq_sym PSt) (eq_trans RB PSc)) as E.
+  rewrite pos_of_nonneg in E by lra. injection E as E. lra.
+Qed.
+Print Assumptions C12_statement_refuted.
+
+(* ------------------------------------------------------------------ the other read-back defects, same text at binary64 *)
+
+Definition Ftc (a b c d : float) : tconstr FNum := Build_tconstr FNum a b c d.
+Definition differ_by_1 (a b : option float) : bool :=
+  match a, b with
+  | Some x, Some y => PrimFloat.ltb (PrimFloat.add x 1) y || PrimFloat.ltb (PrimFloat.add y 1) x
+  | _, _ => false
+  end.
+
+(* cause H (named by the property's own anchor): the optimiser returns CROSSED balance points with smoothing.
+   The objective smooths first and orders inside full_model; the stored coefficients are ordered first and smoothed
+   afterwards.  hdd_bp 60 > cdd_bp 50, both fractions 0.5, at 40 F: scored 130.4, stored 40.5 *)
+Example C12_readback_crossed_refuted :
+  differ_by_1 (scored_curve FNum KFullSmooth [60; 1; 0.5; 50; 2; 0.5; 20]%float (Ftc 10 90 14 85) 40%float)
+              (stored_curve FNum KFullSmooth [60; 1; 0.5; 50; 2; 0.5; 20]%float (Ftc 10 90 14 85) 40%float) = true.
+Proof. vm_compute. reflexivity. Qed.
+
+(* the pinned balance point again, in binary64 *)
+Example C12_pinned_binary64 :
+  scored_curve FNum KC [90; -1; 20]%float (Ftc 10 90 14 85) 50%float = Some 60%float /\
+  stored_curve FNum KC [90; -1; 20]%float (Ftc 10 90 14 85) 50%float = Some 55%float.
+Proof. vm_compute. split; reflexivity. Qed.
+
+(* a slope whose balance point sits on the end of the fitted range is dropped by fix_full_model_x although smoothing
+   had moved the scored balance point inside the range: hdd_bp = T_min = 10, fraction 0.5, cdd_bp 60 *)
+Example C12_end_of_range_smoothing_refuted :
+  differ_by_1 (scored_curve FNum KFullSmooth [10; 2; 0.5; 60; 0; 0; 20]%float (Ftc 10 90 10 90) 12%float)
+              (stored_curve FNum KFullSmooth [10; 2; 0.5; 60; 0; 0; 20]%float (Ftc 10 90 10 90) 12%float) = true.
+Proof. vm_compute. reflexivity. Qed.
+
+(* a zero slope with a non-zero smoothing fraction and fractions adding up to more than one: the objective normalises
+   with both fractions, the stored coefficients with one *)
+Example C12_zero_slope_fraction_refuted :
+  differ_by_1 (scored_curve FNum KFullSmooth [50; 4; 0.5; 70; 0; 0.875; 20]%float (Ftc 10 90 14 85) 56%float)
+              (stored_curve FNum KFullSmooth [50; 4; 0.5; 70; 0; 0.875; 20]%float (Ftc 10 90 14 85) 56%float) = true.
+Proof. vm_compute. reflexivity. Qed.
+
+(* ------------------------------------------------------------------ non-vacuity *)
+
+Example ex_bounds : bounds_ok lo hi (tcR 10 90 14 85).
+Proof. unfold bounds_ok; cbn; lra. Qed.
+Example ex_box : box_spec 10 90 0 100 KFullSmooth [40; 1; 1/2; 65; 2; 1/4; 20].
+Proof. cbn; lra. Qed.
+Example ex_box_crossed : box_spec 10 90 0 100 KFullSmooth [65; 1; 1/2; 40; 2; 1/4; 20].
+Proof. cbn; lra. Qed.
+Example ex_admissible : exists c, named_coeffs RNum KFullSmooth [65; 1; 1/2; 40; 2; 1/4; 20] (tcR 10 90 14 85) = Some c /\
+                                  wellformed lo hi 10 90 14 85 0 100 c.
+Proof. exact (C12_refine_admissible 10 90 14 85 0 100 ex_bounds KFullSmooth _ ex_box_crossed). Qed.
+(* the optimiser's box for the final fit of the smoothed two-sided model, with slope rows coming from get_bnds(x0) *)
+Example ex_box_sound : forall raw,
+  in_box RNum [(14, 85); (0, 3); (0, 1); (14, 85); (0, 5); (0, 1); (0, 100)] raw = true ->
+  box_spec 10 90 0 100 KFullSmooth raw.
+Proof.
+  intros raw H.
+  apply (C12_box_sound_full_smooth 10 90 0 100 (fun r => r) (fun r _ => eq_refl) 14 85) with
+    (nb := [(14, 85); (-1, 3); (-1/2, 1); (14, 85); (5, 0); (0, 1); (0, 100)])
+    (r1 := (0, 1)) (r2 := (0, 1)) (r4 := (0, 1)) (r5 := (0, 1))
+    (B := [(14, 85); (0, 3); (0, 1); (14, 85); (0, 5); (0, 1); (0, 100)]); try lra; try exact H.
+  unfold update_bnds_full_smooth, sort_row, clip_lower_0. cbn. unfold Rltb.
+  repeat (match goal with |- context [Rlt_dec ?a ?b] => destruct (Rlt_dec a b) end; cbn [fst snd] in *; try lra).
+  reflexivity.
+Qed.
